@@ -32,7 +32,9 @@ func c18Grid() []interface{} {
 	}
 	for _, s := range []string{"", "0", "1", "-1", "+1", "12", " 12", "12 ", "012", "1.5", "1.", ".5", "1e3", "1E3", "1e", "0x10", "123test", "test", "true", "false", "NaN", "Inf", "-inf", "1_000",
 		"9223372036854775807", "9223372036854775808", "-9223372036854775808", "-9223372036854775809", "1e400", "99999999999999999999",
-		"2006-01-02 15:04:05", "2006-01-02 15:04:05.000", "2006-01-02 15:04:05.123", "2006-01-02T15:04:05", "2006-01-02", "2006-13-02 15:04:05", "2006-01-02 15:04:05.12", "é", "a\x00b"} {
+		"2006-01-02 15:04:05", "2006-01-02 15:04:05.000", "2006-01-02 15:04:05.123", "2006-01-02T15:04:05", "2006-01-02", "2006-13-02 15:04:05", "2006-01-02 15:04:05.12", "é", "a\x00b",
+		// text that is not well-formed UTF-8 is stored and returned byte for byte
+		"a\xffb", "\xc3", "caf\xe9", "\xed\xa0\x80", "12\xff", "\xff\xfe"} {
 		g = append(g, s)
 	}
 	for _, b := range [][]byte{{}, {0}, []byte("12"), []byte("1.5"), []byte("x"), []byte("2006-01-02 15:04:05"), bytes.Repeat([]byte{0xab}, 5000), []byte("-7")} {
